@@ -69,10 +69,15 @@ k_recv == /\ out # <<>>
           /\ IF Head(out) < 0 THEN gotErr' = TRUE /\ got' = got ELSE got' = Append(got, Head(out)) /\ gotErr' = gotErr
           /\ UNCHANGED <<cfg, fpc, nxt, sch, sclosed, wpc, cur, failed, oclosed, wgc, cpc>>
 Finished == oclosed /\ out = <<>>
-Next == \/ ph_f_close \/ ph_c_wait \/ ph_c_close \/ c_drain \/ k_recv
-        \/ \E s \in 1..N : ph_f_send(s)
-        \/ \E w \in Workers : ph_w_start(w) \/ ph_w_result(w) \/ ph_w_fail(w) \/ ph_w_stop(w) \/ ph_w_done(w) \/ \E s \in 1..N : ph_w_recv(w, s)
-        \/ (Finished /\ UNCHANGED vars)
+FSend == \E s \in 1..N : ph_f_send(s)
+WStart == \E w \in Workers : ph_w_start(w)
+WRecv == \E w \in Workers : \E s \in 1..N : ph_w_recv(w, s)
+WResult == \E w \in Workers : ph_w_result(w)
+WFail == \E w \in Workers : ph_w_fail(w)
+WStop == \E w \in Workers : ph_w_stop(w)
+WDone == \E w \in Workers : ph_w_done(w)
+Stutter == Finished /\ UNCHANGED vars
+Next == FSend \/ ph_f_close \/ WStart \/ WRecv \/ WResult \/ WFail \/ WStop \/ WDone \/ ph_c_wait \/ ph_c_close \/ c_drain \/ k_recv \/ Stutter
 \* ---- properties ----
 StreamClosed == <>Finished
 NoSendAfterClose == oclosed => \A w \in Workers : wpc[w] \in {"exited"}
